@@ -252,3 +252,23 @@ prop('C11', opts={'threads': True, 'pool_mode': 'all'}, race_replay=True, stress
              'thorough': 'G=3 x M=1 and G=2 x M=2 with 1..2 channels'},
      level_note='sync.Pool itself (per-P caches, victim cache, atomics), the Go scheduler and the garbage collector are not encoded: they are replaced by a linearizable multiset whose Get may return any pooled item or a freshly allocated one, with the documented Put->Get happens-before edge. GOMAXPROCS and forced GCs of the property are subsumed by that nondeterminism; G up to 64 is reduced to G<=3. Segments between pool operations run atomically, justified by the race check itself (DRF-SC).',
      outside=['sync.Pool internals, scheduler, GC', 'G > 3 goroutines, M > 2 cycles', 'larger buffers'])
+
+F2I = [('FloatAsSigned', INTS_S), ('FloatAsUnsigned', INTS_U)]
+F2I_Q = {'FloatAsSigned': [('float64', 'int8'), ('float64', 'int16'), ('float32', 'int32'), ('float64', 'int64')],
+         'FloatAsUnsigned': [('float32', 'uint8'), ('float64', 'uint16'), ('float64', 'uint32'), ('float32', 'uint64')]}
+
+
+def f2i_pairs(fn, ints, quick):
+    return F2I_Q[fn] if quick else [(a, b) for a in FLOATS for b in ints]
+
+
+prop('C08',
+     harnesses=[{'name': 'C08_Clip_' + fn, 'types': {'quick': f2i_pairs(fn, ints, True), 'thorough': f2i_pairs(fn, ints, False)}} for fn, ints in F2I] +
+     [{'name': 'C08_Lin_' + fn, 'opts': {'mode': 'value'}, 'types': {'quick': f2i_pairs(fn, ints, True), 'thorough': f2i_pairs(fn, ints, False)},
+       'covers': ['binade']} for fn, ints in F2I] +
+     [{'name': 'C08_Edges_' + fn, 'types': {'quick': f2i_pairs(fn, ints, True), 'thorough': f2i_pairs(fn, ints, False)}, 'covers': ['edges']} for fn, ints in F2I],
+     bounds={'quick': 'every non-NaN float32/float64 input (symbolic bit pattern, IEEE semantics bit-blasted) for clipping at and beyond +-1 (incl. +-Inf), zero, the tiny range below 2^-(depth+1) and the sign side; every input with 2^-(depth+1) <= |f| < 1 (sign x binade case split, significand symbolic, exact integer encoding of the IEEE operations) for one-step accuracy and order inside the binade; binade junctions concretely; 8 of 22 instantiations',
+             'thorough': 'all 22 instantiations'},
+     level_note='Order preservation on (-1,1) is assembled from: order inside every binade (solver), the comparison at every binade junction (concrete), and the tiny range mapping to the zero code (solver); the gluing by transitivity is the only pen-and-paper step. NaN inputs are excluded by the property.',
+     technique='SSA-to-SMT symbolic execution of the real code: IEEE floating point bit-blasted for single-sample facts, exact linear-integer encoding (concrete exponent, symbolic significand) for relational and accuracy facts; z3; native replay',
+     outside=['NaN inputs (unspecified by the property)'])
